@@ -750,10 +750,15 @@ func (s *inProcessClientStream) recvMsgLocked(m interface{}, lastMessage bool) e
 
 func (s *inProcessClientStream) ensureNoMoreLocked(m interface{}) error {
 	mCopy := reflect.New(reflect.TypeOf(m).Elem()).Interface()
-	if err := s.recvMsgLocked(mCopy, false); err == nil {
+	err := s.recvMsgLocked(mCopy, false)
+	if err == nil {
 		s.last = &frame{err: status.Error(codes.Internal, "method should return 1 response message but server sent >1")}
 		s.state = streamStateClosed
 		return s.last.err
+	}
+	if err != io.EOF {
+		// if server sent a failure after the single message, the failure takes precedence
+		return err
 	}
 	return nil
 }
